@@ -1,8 +1,8 @@
 """C11 - Norm and semi-norm integrands are the classical Sobolev integrands.
 
-theorems      : coq/Props/C11.v  (norm_partial: L2 / H1 (scalar, vector, d=1..3) and 1-D H2, norms and semi-norms =
-                the classical integrand in every differential field; H2 in 2-D/3-D characterised exactly (first Hessian
-                row only), deficit theorem, refutation witness; error behaviour in 1-D; reference soundness)
+theorems      : coq/Props/C11.v  (C11_norm_is_sobolev: every kind L2 / H1 / H2, scalar and vector, d=1..3, norms and
+                semi-norms = the classical integrand in every differential field, on the library as repaired by 8b3531a /
+                d70b390; reference soundness; what the library did before as historical examples)
 correspondence: the real Norm / SemiNorm lowered by the real TerminalExpr (and LogicalExpr + TerminalExpr, both
                 compositions, on mapped domains) vs the model `norm_integrand` and vs the classical reference
                 (`sobolev_ref`, `ref_mapped` x the implementation's own measure, whose square is checked against
@@ -18,7 +18,7 @@ import exprlib as X
 
 WITH_EXTRA_COMPONENTS = True      # vectors with more components than the dimension (silently dropped by Dot_kd)
 
-# VERIF_C11_NORMM=wip.C11.fixed.NormM evaluates the cases with the model variant written for the repaired library
+# VERIF_C11_NORMM=wip.C11.NormM evaluates the cases with the model of the library BEFORE the repairs 8b3531a / d70b390
 NORMM = os.environ.get("VERIF_C11_NORMM", "Model.NormM")
 
 HEADER = """From Coq Require Import String ZArith List Bool.
@@ -344,6 +344,7 @@ def main(run, replay=None):
              "measure_unproved": 0, "logical_refused_not_implemented": 0, "coq_timeouts": timeouts,
              "unsupported_node": 0, "lowerings": 0, "h2_truncated_confirmed": 0}
     failing = []      # (ci, sig, msg, where)
+    unproved = []
 
     def base_sig(c):
         ff = not any(a["t"] == "fld" for t in c["comps"] for a in X.sx_atoms(t))
@@ -460,6 +461,7 @@ def main(run, replay=None):
                     stats["mapped_proved"] += 1
                 else:
                     stats["mapped_checker_incomplete"] += 1
+                    unproved.append((c["dim"], c["kind"], c["cls"], (c["mapping"] or {}).get("cls", "symbolic"), key, v))
                     if o.get("ok") is None:
                         failing.append((ci, dict(base_sig(c), what="undecided", where=key),
                                         "neither proved equal to the reference nor testable numerically: %s" % json.dumps(orc)[:300], "undecided"))
@@ -553,6 +555,7 @@ def main(run, replay=None):
         "decisions": stats,
         "stage_seconds_cumulative": stage,
         "coq_timed_out_checks": timed_out,
+        "mapped_unproved_checks": unproved[:40],
         "histograms": hist,
         "samples": cases[:3],
         "exhaustive": False,
@@ -569,7 +572,8 @@ def main(run, replay=None):
         "Theorems are about coq/Model/NormM.v; tie to sympde/expr/expr.py + core/algebra.py + topology/derivatives.py = this "
         "run's correspondence (model output and classical reference proved equal to the implementation's kernel per case).",
         "The calculus-level constructors Grad/Hessian/Dot/Inner (bilinear expansion at construction) are C02's subject and are "
-        "the identity in the model; scalar differentiation is the C05 model (dop_sound).",
+        "the identity in the model; scalar differentiation is the C05 model (dop_sound). The model follows the library as "
+        "repaired by 8b3531a (Inner for the Hessian term), d70b390 (1-D Dot_1d / Inner_1d), 1e0454e (Dot matrix.vector arms).",
         "Mapped domains: the transformation of the integrand is C03, the measure C04; C11 checks the composite kernel against "
         "(classical integrand at F(xhat), written with J^-T grad^) x (the implementation's own measure, whose square is proved "
         "equal to det(J^T J)); its sign is checked numerically only.",
